@@ -18,3 +18,4 @@ def check(rep, tier):
     rep.run(_rn.run_near_tie, rep)
     from contracts import rules_shape as _rs
     rep.run(_rs.run_linalg, rep, tier)      # E3 over autograd/numpy/linalg.py: symbolic matrix and batch sizes
+    rep.run(_rs.run_fft, rep, tier)         # E3 over autograd/numpy/fft.py: symbolic array sizes and transform lengths
